@@ -67,9 +67,6 @@ func runChunkingMode() {
 	for i := 0; i < n; i++ {
 		root := roots[i%2]
 		o := genOpts(r)
-		if !o.zstd {
-			o.flags &^= pkg.RestartCompression
-		}
 		cfg := &recgen.Cfg{NoBigLens: r.Chance(2, 3), MaxCalls: 15, NoFrozen: r.Bool(), DictResets: o.dictSize != 0 || o.flags&pkg.RestartDictionaries != 0}
 		p := genParams{writes: 1 + r.Intn(12), maxMut: 2, flushProb: r.Intn(8)}
 		name := fmt.Sprintf("ch-%d", i)
